@@ -163,7 +163,7 @@ fn pick_reg(rng: &mut Rng, reserved: &[u8]) -> u8 {
 fn emit_simple(a: &mut Asm, rng: &mut Rng, o: &ProgOpts) {
     let r = pick_reg(rng, &o.reserved);
     let s = pick_reg(rng, &o.reserved);
-    match rng.below(16) {
+    match rng.below(17) {
         0 | 1 => {
             a.mov_imm32(r, rng.val() as u32);
             a.shape.push('m');
@@ -216,6 +216,34 @@ fn emit_simple(a: &mut Asm, rng: &mut Rng, o: &ProgOpts) {
             a.b.push(0x40 | ((r & 7) << 3) | (s & 7));
             a.b.push(rng.next() as u8);
             a.shape.push('l');
+        }
+        15 => {
+            // sign-extension and multiply family: instructions with implicit operands (RAX / RDX)
+            if o.reserved.contains(&0) || o.reserved.contains(&2) {
+                a.b.push(0x90);
+                a.shape.push('.');
+            } else {
+                match rng.below(7) {
+                    0 => a.b.push(0x99),                          // cdq
+                    1 => a.b.extend_from_slice(&[0x48, 0x99]),    // cqo
+                    2 => a.b.extend_from_slice(&[0x48, 0x98]),    // cdqe
+                    3 => a.b.extend_from_slice(&[0x66, 0x99]),    // cwd
+                    4 => {
+                        // imul r, s
+                        a.rex_w(r, s);
+                        a.b.extend_from_slice(&[0x0f, 0xaf]);
+                        a.modrm_rr(r, s);
+                    }
+                    5 => a.unary(4, 0xf7, s), // mul s
+                    _ => {
+                        // movsxd r, s(32)
+                        a.rex_w(r, s);
+                        a.b.push(0x63);
+                        a.modrm_rr(r, s);
+                    }
+                }
+                a.shape.push('e');
+            }
         }
         _ => {
             a.b.push(0x90);
